@@ -32,13 +32,14 @@ bool GaussianPrediction::skip(const std::string& what_step, const bool status)
 
         getStateModel().skip("state", status);
 
-        getStateModel().skip("exogenous", status);
+        if (getStateModel().have_exogenous_model())
+            getStateModel().skip("exogenous", status);
     }
     else if (what_step == "state")
     {
         getStateModel().skip("state", status);
 
-        skip_ = getStateModel().is_skipping() & getStateModel().exogenous_model().is_skipping();
+        skip_ = getStateModel().is_skipping() && (!getStateModel().have_exogenous_model() || getStateModel().exogenous_model().is_skipping());
     }
     else if (what_step == "exogenous")
     {
